@@ -348,6 +348,24 @@ def run_episodes(outer, get_inner, space, action_space, episodes, calls, single)
     return eps
 
 
+def feat_order(env):
+    """Key order of the composite observer's feature dictionary (= order in which the Box entries were declared)."""
+    return [FTYPES.index(ft.value) for ft in env.composite_observer.features]
+
+
+def oracle_space(obs):
+    """The declared observation space with its feature entries in the composite's order."""
+    nodes, edges, feats, _ = obs["space"]
+    by = dict((t, [t, r, c]) for t, r, c in feats)
+    return [nodes, edges, [by[t] for t in obs["feat_order"] if t in by]]
+
+
+def oracle_items(obs):
+    sp = oracle_space(obs)
+    return [[sp, s["obs"]["mask"], s["obs"]["edge"], s["obs"]["feats"]]
+            for ep in obs["episodes"] for s in ep["obs"] if "obs" in s]
+
+
 def inner_info(inner):
     return {"spec": common.spec_of_instance(inner.instance),
             "space": enc_space(inner.observation_space),
@@ -369,7 +387,7 @@ def run_single(case):
             return {"ctor": common.exn_code(e), "text": repr(e)[:200]}
         del calls[:]
         out = {"ctor": 0, "space": enc_space(env.observation_space), "action": enc_action_space(env.action_space),
-               "tokens": observed_tokens(env, case["cfg"], filt)}
+               "tokens": observed_tokens(env, case["cfg"], filt), "feat_order": feat_order(env)}
         out["episodes"] = run_episodes(env, lambda: env, env.observation_space, env.action_space,
                                        case["episodes"], calls, True)
     return out
@@ -417,6 +435,7 @@ def run_multi(case):
         first = env.single_job_shop_graph_env
         out = {"ctor": 0, "space": enc_space(env.observation_space), "action": enc_action_space(env.action_space),
                "max": inner_info(first), "tokens0": observed_tokens(first, case["cfg"], filt),
+               "feat_order": feat_order(first),
                "stored": int(env.feature_observer_configs is fo and env.graph_updater_config is
                              kw.get("graph_updater_config", env.graph_updater_config)
                              and env.reward_function_config is kw["reward_function_config"])}
@@ -632,6 +651,7 @@ class C18(Check):
                 # declared shapes (the call raised: only the raise is compared)
                 eps.append([[s["removes"], s["obs"]["feats"] if "obs" in s else []] for s in ep["obs"]])
             reqs.append((1802, [case["spec"], case["builder"], tok, eps]))
+            reqs.append((1805, oracle_items(obs)))
             for ep in obs["episodes"]:
                 for s in ep["obs"]:
                     reqs.append((1801, [case["spec"], s["jnext"], [], []]))
@@ -642,6 +662,7 @@ class C18(Check):
             mp = model_params(case["params"])
             reqs.append((1803, [mp, case["builder"], tok, obs["max"]["spec"], eps]))
             reqs.append((1903, [[mp, ep["inner"]["spec"]] for ep in obs["episodes"]]))
+            reqs.append((1805, oracle_items(obs)))
             for ep in obs["episodes"]:
                 for s in ep["obs"]:
                     reqs.append((1801, [ep["inner"]["spec"], s["jnext"], [], [obs["action"][0]]]))
@@ -652,6 +673,7 @@ class C18(Check):
         if case["kind"] == "pad":
             return self.judge_pad(case, obs, outs)
         if obs.get("ctor") != 0:
+            self.note("constructor_raised_skipped")
             return []          # the constructor raised (EarliestStartTimeObserver / C11): nothing to observe
         if case["kind"] == "single":
             return self.judge_single(case, obs, outs)
@@ -751,6 +773,17 @@ class C18(Check):
                                  f"space MultiDiscrete({_nvec}, start={_start})", observed=outside))
 
     @staticmethod
+    def check_spec_oracle(fails, where, s, verdict, pad, prefix):
+        """The extracted specification [obs_contains] applied to the implementation's observation."""
+        if verdict != s["contains"]:
+            fails.append(Failure("tie", prefix + ":contains-vs-extracted-spec",
+                                 f"{where}: gymnasium's contains = {s['contains']}, the extracted specification "
+                                 f"says {verdict}"))
+        if pad and not verdict:
+            fails.append(Failure("oracle", prefix + ":obs-in-space",
+                                 f"{where}: the observation is not in the declared space (extracted specification)"))
+
+    @staticmethod
     def check_step(fails, where, s, prefix):
         if "step" not in s:
             return
@@ -780,10 +813,15 @@ class C18(Check):
                                  "the environment does not hold the configuration it was given",
                                  expected=tok, observed=obs["tokens"]))
         pad = case["cfg"]["padding"]
-        k = 1
+        spec_verdicts = list(outs[1])
+        k = 2
         for ei, (ep, mep) in enumerate(zip(obs["episodes"], meps)):
             for si, (s, mo) in enumerate(zip(ep["obs"], mep)):
                 where = f"episode {ei} observation {si}"
+                self.note("observations")
+                self.note("legal_decisions", len(s["legal"]))
+                if "obs" in s:
+                    self.check_spec_oracle(fails, where, s, spec_verdicts.pop(0), pad, "single")
                 self.check_legal(fails, where, s, outs[k], "single")
                 k += 1
                 self.check_step(fails, where, s, "single")
@@ -853,7 +891,8 @@ class C18(Check):
             fails.append(Failure("oracle", "multi:fresh-inner-env", "reset did not build a new inner environment"))
         pad = case["cfg"]["padding"]
         shape_out = outs[1]
-        k = 2
+        spec_verdicts = list(outs[2])
+        k = 3
         for ei, (ep, mep) in enumerate(zip(obs["episodes"], meps)):
             where0 = f"episode {ei}"
             # instance inside the generator's ranges (C19's extracted oracle)
@@ -867,6 +906,9 @@ class C18(Check):
                                      f"{where0}: the model could not reproduce this episode's instance",
                                      observed=ep["inner"]["spec"]))
                 k += len(ep["obs"])
+                for s in ep["obs"]:
+                    if "obs" in s:
+                        spec_verdicts.pop(0)
                 continue
             _, mcfg, mispace, mianvec, mfits, mobs = mep
             # configuration of the inner environment = constructor's
@@ -893,6 +935,10 @@ class C18(Check):
                 ep["inner"]["action"][0][0] <= obs["action"][0][0]
             for si, (s, mo) in enumerate(zip(ep["obs"], mobs)):
                 where = f"{where0} observation {si}"
+                self.note("observations")
+                self.note("legal_decisions", len(s["legal"]))
+                if "obs" in s:
+                    self.check_spec_oracle(fails, where, s, spec_verdicts.pop(0), pad, "multi")
                 self.check_legal(fails, where, s, outs[k], "multi", known_ok=not action_fits)
                 k += 1
                 self.check_step(fails, where, s, "multi")
@@ -901,6 +947,7 @@ class C18(Check):
                     if not tie_ok:
                         fails.append(Failure("tie", "multi:obs", f"{where}: the library raised, the model did not"))
                     if s["exc"] == 1 and pad and tie_ok and not fits:
+                        self.note("known_finding_observations")
                         fails.append(Failure("oracle", KNOWN,
                                              f"{where}: reset/step raised ValidationError in add_padding: this "
                                              f"episode's sizes {isp[:3]} exceed the declared ones {osp[:3]} (taken "
